@@ -141,6 +141,8 @@ class C15:
         offset, samples = ("param", "offset"), ("param", "samples")
         seeks = [e for e in s.calls if e.term[1][0] == "attr" and e.term[1][2] == "seek"]
         reads = [e for e in s.calls if e.term[1][0] == "attr" and e.term[1][2] == "read"]
+        if len(seeks) == 1 and len(reads) == 2 and self.check_load_audio_paths(s, seeks[0], reads, file, site):
+            return
         if len(seeks) != 1 or len(reads) != 1:
             ctx.bad("R15.2", file, "load_audio", f"{len(seeks)} seek / {len(reads)} read calls",
                     "load_audio must seek once to the offset and read once", s.node.lineno)
@@ -198,6 +200,102 @@ class C15:
                         f"load_audio: `{name}` does not hold (seek {show(seeks[0].term)[:40]}; read {show(reads[0].term)[:80]}): frames are "
                         f"read from the wrong position / past-the-end frames are not zero-filled / mono files lose their channel axis",
                         reads[0].lineno)
+
+    def check_load_audio_paths(self, s, seek, reads, file, site) -> bool:
+        """load_audio written with one read per case -- `samples is None`: read everything that is left; `samples = n`: read n frames
+        and, where soundfile is not asked to fill (fill_value), pad the block with zeros up to n rows.  Decided per case; False
+        when the code has another shape (nothing reported)."""
+        ctx = self.ctx
+        offset, samples = ("param", "offset"), ("param", "samples")
+        SF_READ = ("frames", "dtype", "always_2d", "fill_value", "out")
+
+        def bound(t):
+            kw = callkw(t)
+            for n_, a_ in zip(SF_READ, t[2]):
+                kw.setdefault(n_, a_)
+            return kw
+        fpv = seek.term[1][1]
+        if any(r.term[1][1] != fpv or r.idx < seek.idx for r in reads):
+            return False
+        scen = {"all": {("cmp", "is", samples, NONE): True, ("cmp", "isnot", samples, NONE): False},
+                "n": {("cmp", "is", samples, NONE): False, ("cmp", "isnot", samples, NONE): True, ("cmp", "lt", samples, ("const", 0)): False,
+                      ("cmp", "le", ("const", 0), samples): True, ("cmp", "le", samples, ("const", 0)): False, ("cmp", "lt", ("const", 0), samples): True}}
+        picked = {}
+        for name, env in scen.items():
+            live = [r for r in reads if peval(r.live, env) != ("const", False)]
+            if len(live) != 1 or peval(live[0].live, env) != ("const", True):
+                return False
+            picked[name] = live[0]
+        if picked["all"] is picked["n"]:
+            return False
+        ok = True
+        # everything that is left
+        kw = bound(picked["all"].term)
+        fr = peval(kw.get("frames", ("const", -1)), scen["all"])
+        if fr != ("const", -1) or kw.get("always_2d") != ("const", True):
+            ok = False
+            ctx.bad("R15.2", file, "load_audio", f"samples=None: {show(picked['all'].term)[:70]}",
+                    "without a number of samples load_audio must read all remaining frames (frames=-1) with always_2d=True", picked["all"].lineno)
+        for r in s.returns:
+            if peval(r.live, scen["all"]) == ("const", False):
+                continue
+            if not (r.term[0] == "tuple" and len(r.term[1]) == 2 and r.term[1][0] == picked["all"].term and peval(r.live, scen["all"]) == ("const", True)):
+                ok = False
+                ctx.bad("R15.2", file, "load_audio", f"return {show(r.term)[:70]}", "without a number of samples load_audio must return the frames it read", r.lineno)
+        # n frames, zero-filled past the end of the file
+        rd = picked["n"].term
+        kw = bound(rd)
+        if peval(kw.get("frames", ("const", -1)), scen["n"]) != samples or kw.get("always_2d") != ("const", True) \
+                or kw.get("dtype", ("const", "float64")) != ("const", "float64"):
+            ok = False
+            ctx.bad("R15.2", file, "load_audio", f"samples=n: {show(rd)[:70]}",
+                    "load_audio must read `samples` frames as float64 with always_2d=True", picked["n"].lineno)
+        filled = kw.get("fill_value") in (("const", 0), ("const", 0.0))
+        rets = [r for r in s.returns if peval(r.live, scen["n"]) != ("const", False)]
+        rows = [("sub", ("attr", rd, "shape"), ("const", 0)), ("call", ("builtin", "len"), (rd,), ())]
+        short = [("cmp", "lt", ("const", 0), ("bin", "-", samples, x)) for x in rows] + [("cmp", "lt", x, samples) for x in rows]
+        pad_ok = False
+        if filled:
+            pad_ok = all(r.term[0] == "tuple" and len(r.term[1]) == 2 and r.term[1][0] == rd for r in rets)
+        elif len(rets) == 2:
+            whole = [r for r in rets if r.term[0] == "tuple" and r.term[1][0] == rd]
+            padded = [r for r in rets if r not in whole]
+            if len(whole) == 1 and len(padded) == 1 and padded[0].term[0] == "tuple":
+                cond = [c for c in conjuncts(peval(padded[0].live, scen["n"])) if c[0] != "inloop"]
+                z = padded[0].term[1][0]
+                good_cond = len(cond) == 1 and cond[0] in short
+                # np.zeros((samples, block.shape[1]), dtype=block.dtype) with [:rows] = block  /  np.pad(block, ((0, samples - rows), (0, 0)))
+                alloc = z[0] == "call" and z[1] == ("ext", "numpy.zeros") and z[2] and z[2][0] == ("tuple", (samples, ("sub", ("attr", rd, "shape"), ("const", 1)))) \
+                    and callkw(z).get("dtype", z[2][1] if len(z[2]) > 1 else None) in (("attr", rd, "dtype"), ("const", "float64"), ("ext", "numpy.float64"), ("builtin", "float"), None)
+                stores = [e for e in s.of("store") if e.term[1][0] == "sub" and e.term[1][1] == z]
+                assign = len(stores) == 1 and stores[0].term[2] == rd and stores[0].term[1][2] in [("slice", NONE, x, NONE) for x in rows] \
+                    and stores[0].idx < padded[0].idx
+                npad = z[0] == "call" and z[1] == ("ext", "numpy.pad") and len(z[2]) >= 2 and z[2][0] == rd and z[2][1][0] == "tuple" and len(z[2][1][1]) == 2 \
+                    and z[2][1][1][0] in [("tuple", (("const", 0), ("bin", "-", samples, x))) for x in rows] and z[2][1][1][1] == ("tuple", (("const", 0), ("const", 0))) \
+                    and callkw(z).get("mode", ("const", "constant")) == ("const", "constant") and callkw(z).get("constant_values", ("const", 0)) in (("const", 0), ("const", 0.0))
+                pad_ok = good_cond and ((alloc and assign) or npad)
+        if pad_ok:
+            ctx.ok("R15.2", f"{file}:{picked['n'].lineno} load_audio", "frames past the end of the file are zero-filled" + ("" if filled else " (block padded with zeros up to `samples` rows)"))
+        else:
+            ok = False
+            ctx.bad("R15.2", file, "load_audio", "zero fill past the end of the file",
+                    "with a number of samples load_audio must return exactly that many frames: the frames read at the offset, followed by "
+                    "zeros where the file ends (fill_value=0, or the block padded with zeros up to `samples` rows)", picked["n"].lineno)
+        sk = seek.term[2][0] if len(seek.term[2]) == 1 else None
+        frames_t = ("attr", fpv, "frames")
+        lens_ = {frames_t, ("call", ("builtin", "len"), (fpv,), ())}
+        capped = sk is not None and sk[0] == "call" and sk[1] in (("builtin", "min"), ("ext", "numpy.minimum")) and len(sk[2]) == 2 \
+            and offset in sk[2] and any(a in lens_ for a in sk[2])
+        if capped:
+            ctx.ok("R15.6", f"{file}:{seek.lineno} load_audio", "seek position capped at the number of frames of the file")
+            ctx.ok("R15.2", f"{file}:{seek.lineno} load_audio", "seek(offset) before read")
+        else:
+            return False if ok else True
+        if ok:
+            ctx.ok("R15.2", f"{file}:{picked['all'].lineno} load_audio", "every path returns the frames read at the offset")
+            ctx.ok("R15.2", f"{file}:{picked['n'].lineno} load_audio", "frames = samples (-1 = all that is left, without a number)")
+            ctx.ok("R15.2", f"{file}:{picked['n'].lineno} load_audio", "always_2d=True")
+        return True
 
     # ------------------------------------------------------------------ R15.3 / R15.4
     def check_spectrogram(self):
@@ -297,10 +395,14 @@ class C15:
         res = rs[0].term
         times = ("attr", ("sub", ("attr", ("param", "array"), "coords"), ("param", "dim")), "values")
         kw = callkw(res)
-        if tb.get(ts.params[0]) == ("sub", res, ("const", 1)) and canon(tb.get("step", NONE)) == canon(("bin", "/", ("const", 1), target)) and kw.get("t") == times:
+        # the step the constructor records: 1 / samplerate when a samplerate is given (check_time_dim_ctor), else the step argument
+        eff_step = tb.get("step", NONE)
+        if tb.get("samplerate", NONE) != NONE:
+            eff_step = ("bin", "/", ("const", 1), tb["samplerate"])
+        if tb.get(ts.params[0]) == ("sub", res, ("const", 1)) and canon(eff_step) == canon(("bin", "/", ("const", 1), target)) and kw.get("t") == times:
             ctx.ok("R15.3", site, "resampled axis = scipy's resampled times of the source axis; step = 1 / target samplerate")
         else:
-            ctx.bad("R15.3", file, "resample", f"step = {show(tb.get('step', NONE))[:50]}",
+            ctx.bad("R15.3", file, "resample", f"step = {show(eff_step)[:50]}",
                     "the resampled time axis must be the times scipy derives from the source axis, advertised with step 1 / target_samplerate",
                     s.node.lineno)
         num = res[2][1] if len(res[2]) > 1 else kw.get("num")
@@ -411,6 +513,9 @@ def check_axes(ctx: Ctx):
         keys = None
         if coords is not None and coords[0] == "dict":
             keys = [(axis_name(k), v) for k, v in coords[1] if isinstance(k, tuple)]
+        elif coords is not None and coords[0] in ("list", "tuple") and coords[1] and all(c_[0] == "tuple" and len(c_[1]) in (2, 3) for c_ in coords[1]):
+            keys = [(axis_name(c_[1][0]), c_[1][1]) for c_ in coords[1]]  # [(name, data[, attrs]), ...]: the axes in this order
+        keys = None if keys is None else [(k, v[1] if v[0] == "attr" and v[2] in ("data", "values") else v) for k, v in keys]
         dims = kw.get("dims", das[0][2][2] if len(das[0][2]) > 2 else None)
         names = None
         if dims is not None and dims[0] == "call" and dims[1] in (("builtin", "tuple"), ("builtin", "list")) and len(dims[2]) == 1:
@@ -426,7 +531,8 @@ def check_axes(ctx: Ctx):
         if "data" not in kw and not das[0][2]:
             ctx.bad("R15.7", file, fname, "xr.DataArray(...) without data", f"{fname} builds its array without the data it computed", s.node.lineno)
         if want is None:
-            if dims == ("attr", ("param", s.params[0]), "dims"):
+            if dims in (("attr", ("param", s.params[0]), "dims"), ("call", ("builtin", "tuple"), (("attr", ("param", s.params[0]), "dims"),), ()),
+                        ("call", ("builtin", "list"), (("attr", ("param", s.params[0]), "dims"),), ())):
                 ctx.ok("R15.7", site, "the dimensions of the input are kept")
             else:
                 ctx.undec("R15.7", site, f"cannot read the axis names of the returned array: dims={show(dims)[:60] if dims else '-'}")
